@@ -6,4 +6,5 @@ REGISTRY = {
     "C13": ["vf.harness.c13"],
     "C14": ["vf.harness.c14"],
     "C15": ["vf.harness.c15"],
+    "C18": ["vf.harness.c18"],
 }
